@@ -52,6 +52,9 @@ BX_WHY = {
                  'over schedules',
     'bx:totext': 'ToText::work walks a Vec of input streams with iter_mut(), a labelled break with a value and String formatting: outside '
                  'the extractable subset; bounded differential check of the real code (same text one-shot and drip-fed over two inputs)',
+    'bx:kernels': 'the LFSR steps are proved over their full domain (kani:lfsr) and the kernels in unit kernels, but what a block is BUILT with is '
+                  'constructor code (Descrambler::new_g3ruh, the correlators\' zeroed window) outside every contract: bounded check of the '
+                  'real blocks against per-sample references (G3RUH: out[t] = in[t] ^ in[t-12] ^ in[t-17] through both constructors)',
     'bx:dsp': 'floating-point blocks: no verifier here has a float theory and most of these bodies are iterator/FFT code; bounded '
               'differential check of the real code (a roomy run and an adversarial drip-fed run of the same input must give '
               'bit-identical output; one-to-one blocks must deliver each tag once at the same index)',
